@@ -1307,7 +1307,7 @@ class DocutilsRenderer(RendererProtocol):
                 body += nodes.literal(value, value)
 
             field_node = nodes.field()
-            field_node.source = value
+            field_node.source = self.document["source"]
             field_node += nodes.field_name(key, "", nodes.Text(key))
             field_node += nodes.field_body(value, *[body])
             field_list += field_node
